@@ -54,6 +54,7 @@ func c08side(c *Ctx) {
 		wantAttrs := map[string]string{}
 		wantWithID := map[string]string{} // attributes of the records that carry an id attribute
 		callerFn := "c08side"
+		perGoroutine := false // records that carry "own" went through a logger derived by their goroutine: req == own
 
 		switch sc {
 		case "failing":
@@ -84,10 +85,22 @@ func c08side(c *Ctx) {
 			h := slog.NewSlogHandler(l0, &slog.HandlerOptions{NoColor: true, JSON: f == FJSON, Level: slog.PanicLevel})
 			l0.SetLevel(slog.AlwaysLevel)
 			sl := stdslog.New(h).With("zone", "eu", "svc", "x", "alpha", 1, "svc", "y")
+			// the base logger went through 0-7 further derivation steps; every goroutine derives a logger OF ITS OWN from it
+			// (the per-request pattern) while the others do the same, and uses it: a record carries the attribute of the
+			// logger it went through
+			steps := (idx / 3) % 8
+			for i := 0; i < steps; i++ {
+				sl = sl.With(fmt.Sprintf("s%d", i), i)
+			}
+			desc["derivation_steps_of_the_base_logger"] = steps + 1
 			sl2 := sl.With("tail", "t")
 			// one group value shared by all goroutines; it holds a zero Attr (log/slog asks handlers to ignore those)
 			sharedGroup := stdslog.Group("sg", stdslog.Int("a", 1), stdslog.Attr{}, stdslog.String("z", "Z"), stdslog.Attr{}, stdslog.Group("in", stdslog.Attr{}, stdslog.Int("q", 2)))
 			wantAttrs = map[string]string{"zone": "eu", "svc": "y", "alpha": "1"}
+			for i := 0; i < steps; i++ {
+				wantAttrs[fmt.Sprintf("s%d", i)] = fmt.Sprint(i)
+			}
+			perGoroutine = true
 			wantWithID = map[string]string{"sg.a": "1", "sg.z": "Z", "sg.in.q": "2"}
 			callerFn = "" // the adapter's records carry the program counter log/slog captured: not judged here
 			for g := 0; g < G; g++ {
@@ -96,9 +109,12 @@ func c08side(c *Ctx) {
 				go func() {
 					defer wg.Done()
 					<-start
+					mine := sl.With("req", g)
 					for k := 0; k < N; k++ {
 						id := fmt.Sprintf("g%dk%d;", g, k)
 						switch (g + k) % 4 {
+						case 2:
+							mine.Info("m-"+id, "own", g)
 						case 0:
 							sl.Info("m-"+id, "id", id, sharedGroup)
 						case 1:
@@ -187,6 +203,16 @@ func c08side(c *Ctx) {
 			}
 			if v, ok := attrs["id"]; ok && v != id {
 				c.R.Violation(idx, "torn-or-corrupt", "C08/side/"+sc+"/foreign-attribute", fmt.Sprintf("record of call %s carries id=%q\npayload: %s", id, v, q(clip(string(e.Data), 900))), desc)
+				return
+			}
+			if own, ok := attrs["own"]; perGoroutine && ok {
+				if attrs["req"] != own || !strings.HasPrefix(id, "g"+own+"k") {
+					c.R.Violation(idx, "torn-or-corrupt", "C08/side/"+sc+"/derived-logger-attribute", fmt.Sprintf("record of call %s went through the logger its goroutine derived with req=%s; it carries req=%q (attributes %v)\npayload: %s", id, own, attrs["req"], briefAttrs(d.Attrs), q(clip(string(e.Data), 900))), desc)
+					return
+				}
+				c.R.Add("records_through_a_logger_derived_by_their_goroutine", 1)
+			} else if _, has := attrs["req"]; perGoroutine && has {
+				c.R.Violation(idx, "torn-or-corrupt", "C08/side/"+sc+"/derived-logger-attribute", fmt.Sprintf("record of call %s went through the shared base logger, it carries req=%q of some goroutine's own logger\npayload: %s", id, attrs["req"], q(clip(string(e.Data), 900))), desc)
 				return
 			}
 			if _, ok := attrs["id"]; ok {
